@@ -97,7 +97,7 @@ def roleParse (isSpace : Char → Bool) (pfx : Str) (ty : TargetType) (text : St
     | '~' :: r => (['~'], r)
     | '!' :: r => (['!'], r)
     | t => ([], t)
-  let target2 := if !pfx.isEmpty ∧ !pfx.isPrefixOf target1 then pfx ++ '.' :: target1 else target1
+  let target2 := if !pfx.isEmpty ∧ !(pfx ++ ['.']).isPrefixOf target1 then pfx ++ '.' :: target1 else target1
   match ty with
   | .callable => ⟨stripParams isSpace target2, label0, flag⟩
   | .cmdlineOption =>
